@@ -39,3 +39,13 @@ Theorem C17_lookup_sorted_complete :
     sorted_keys t -> In (key, i) t -> exists j, lookup_sorted t key = Some j /\ In (key, j) t.
 Proof. exact lookup_sorted_complete. Qed.
 Print Assumptions C17_lookup_sorted_complete.
+
+Theorem C17_dbc_roundtrip :
+  forall sch arrays recs,
+    Forall (fun r => fits (flat sch) r = true) recs ->
+    Forall nul_free (strings_of recs) ->
+    lenN recs < pow256 4 -> field_count sch arrays < pow256 4 -> N.of_nat (lay_size (lay sch)) < pow256 4 ->
+    lenN (fst (build_block recs)) < pow256 4 ->
+    dbc_read sch (dbc_write sch arrays recs) = Some recs.
+Proof. exact dbc_roundtrip. Qed.
+Print Assumptions C17_dbc_roundtrip.
